@@ -22,6 +22,8 @@ pub struct PacketConn<RW: Read + Write> {
     seq: u8,
     // the last packet written had the maximal payload length, so the message goes on
     continued: bool,
+    // an error hit while a writer was finalised in its Drop impl; reported by the next flush
+    deferred_err: Option<io::Error>,
 }
 
 impl<W: Read + Write> Write for PacketConn<W> {
@@ -40,6 +42,9 @@ impl<W: Read + Write> Write for PacketConn<W> {
     }
 
     fn flush(&mut self) -> io::Result<()> {
+        if let Some(e) = self.deferred_err.take() {
+            return Err(e);
+        }
         self.maybe_end_packet()?;
         self.rw.flush()
     }
@@ -58,6 +63,7 @@ impl<RW: Read + Write> PacketConn<RW> {
             to_write: vec![0, 0, 0, 0],
             seq: 0,
             continued: false,
+            deferred_err: None,
             rw,
         }
     }
@@ -80,6 +86,12 @@ impl<W: Read + Write> PacketConn<W> {
 
     pub fn end_packet(&mut self) -> io::Result<()> {
         self.maybe_end_packet()
+    }
+
+    /// Remember an error that could not be returned to the caller (it happened in a `Drop`
+    /// impl); the next `flush` fails with it.
+    pub(crate) fn defer_error(&mut self, e: io::Error) {
+        self.deferred_err.get_or_insert(e);
     }
 
     #[cfg(feature = "tls")]
